@@ -402,6 +402,11 @@ def axis_uses(graph):
     return out
 
 
+def dead_leaf(t):
+    """a leaf of a conditional that stands for a path that does not continue: an exception, the KeyError of a dispatch table"""
+    return isinstance(t, T) and (t.op == 'raise' or (t.op == 'unknown' and t.args == ('keyerror',)))
+
+
 def unwrap_gamma(t):
     """all alternatives of a gamma tree (leaves)"""
     out, stack = [], [t]
@@ -1127,8 +1132,20 @@ def indexed_values(graph):
             idx = e.term.args[1]
             items = list(idx.args[0]) if idx.op == 'tuple' else [idx]
             roles = [loop_role(x) for x in items]
+            # `row[d] = v` with `for k, row in enumerate(X)` is X[k, d] = v: the row view contributes its own running index
+            lead = []
+            b = strip_views(e.term.args[0])
+            for _ in range(4):
+                while isinstance(b, T) and b.op in ('mu', 'store'):
+                    b = strip_views(b.args[0])
+                rb = loop_role(b)
+                if rb is not None and rb[0] == 'slice':
+                    lead.insert(0, rb[1])
+                    b = strip_views(rb[2])
+                else:
+                    break
             if roles and all(r is not None and r[0] == 'index' for r in roles):
-                out.append((tuple(r[1] for r in roles), e.term.args[2], e.node))
+                out.append((tuple(lead) + tuple(r[1] for r in roles), e.term.args[2], e.node))
     seen = set()
     for r in [graph.ret] + [e.term for e in graph.events if e.term is not None]:
         for t in walk_terms(r, seen):
@@ -1221,4 +1238,52 @@ def trace_operand(t):
         d = strip_views(call_arg(t, 0, 'a'))
         if is_call_to(d, 'numpy.diagonal') and {const_val(call_arg(d, 2, 'axis1')), const_val(call_arg(d, 3, 'axis2'))} == {-1, -2}:
             return call_arg(d, 0, 'a')
+    return None
+
+
+def only_adds_axes(t):
+    """t == x[idx] where idx can only INSERT axes (None), whatever their number: a display of None / `...` / full slices, such a display repeated (`(None,) * k`),
+    concatenations of these, starred parts  ->  x; else None.  (x[(None,) * k + (...,)] is x with k leading singleton axes - values untouched)"""
+    t = strip_views(t)
+    if not (isinstance(t, T) and t.op == 'sub'):
+        return None
+
+    def harmless(i, depth=0):
+        i = strip_views(i) if isinstance(i, T) and i.op != 'star' else i
+        if not isinstance(i, T) or depth > 8:
+            return False
+        if i.op == 'star':
+            return harmless(i.args[0], depth + 1)
+        if i.op in ('tuple', 'list'):
+            return all(harmless(x, depth + 1) for x in i.args[0])
+        if i.op == 'const':
+            return i.args[0] is None or i.args[0] is Ellipsis
+        if is_full_slice(i):
+            return True
+        if i.op == 'binop' and i.args[0] == 'Add':
+            return harmless(i.args[1], depth + 1) and harmless(i.args[2], depth + 1)
+        if i.op == 'binop' and i.args[0] == 'Mult':
+            a, b = strip_views(i.args[1]), strip_views(i.args[2])
+            return (a.op in ('tuple', 'list') and harmless(a, depth + 1)) or (b.op in ('tuple', 'list') and harmless(b, depth + 1))
+        if i.op == 'gamma':
+            return harmless(i.args[1], depth + 1) and harmless(i.args[2], depth + 1)
+        return False
+    return t.args[0] if harmless(t.args[1]) else None
+
+
+def trailing_items(t, n, depth=0):
+    """the last n items of a shape / sequence expression whose tail is spelled out: a display (..., K, N), a concatenation lead + [K, N], tuple(...) / list(...) of these;
+    None when the tail is not visible"""
+    t = strip_views(t)
+    if not isinstance(t, T) or depth > 8:
+        return None
+    if t.op in ('tuple', 'list'):
+        items = list(t.args[0])
+        if len(items) >= n and not any(x.op == 'star' for x in items[-n:]):
+            return items[-n:]
+        return None
+    if t.op == 'binop' and t.args[0] == 'Add':
+        return trailing_items(t.args[2], n, depth + 1)
+    if is_call_to(t, 'builtin.tuple', 'builtin.list') and len(call_parts(t)[1]) == 1:
+        return trailing_items(call_parts(t)[1][0], n, depth + 1)
     return None
